@@ -21,8 +21,17 @@ Executable model, import-free.  It mirrors the code *with the three C11 repairs 
 Ghost data (not in the Python objects; the harness carries `seq` in `event.data`): `Msg.seq`, `Msg.sentAt`,
 `Msg.delay`, the lists `log`, `dropped`, `sent`, and the `live` field of the log records (ids of the
 population at the moment of the step).
-Not modelled: agent states without a handler table / event names without handler (the harness registers a
-handler for every state and event name it uses), sender ids, payloads.
+Not modelled in the base machine `State`/`Op`/`step`: agent states without a handler table / event names
+without handler (every base agent has a handler for the one base event name), sender ids, payloads.
+
+Wave 2 (below the base machine, which is unchanged):
+* `Eff`/`Prog`/`midStep` — a step during which `act()` and the handlers change the population and send
+  (`for agent in model.agents` iterates the list object bound at loop entry, C12's `aliased`/`todo`);
+  `Bptk.C11.midStep_linear` proves it equal to the atomic `stepFn` followed by the same effects as operations.
+* `XState`/`XOp`/`xstep` — handler tables (`Agent.eventHandlers[state][name]`), states without a table (the
+  inbox is kept), names without handler (popped and discarded: the inner `except KeyError`), handlers that
+  raise (`KeyError` is swallowed = the handler ran; any other exception leaves `run_step`: the rest of the
+  inbox, the inboxes of the later agents and `scheduler.delayed_events` stay where they are).
 -/
 namespace Bptk.C11
 
@@ -34,6 +43,10 @@ structure Msg where
   rid : Nat
   sentAt : Nat
   delay : Nat
+  /-- wave 2: `event.name` (0 = the name every wave-1 agent has a handler for) -/
+  name : Nat := 0
+  /-- wave 2: the handler that runs for this event raises an exception other than `KeyError` -/
+  raises : Bool := false
 deriving DecidableEq, Repr
 
 /-- A queued event: `remaining` = steps the scheduler still keeps it back. -/
@@ -173,6 +186,245 @@ def step (s : State) : Op → State
   | .step => stepFn s
 
 def run (s : State) (ops : List Op) : State := ops.foldl step s
+
+
+/-! ## Wave 2a — population changes and sends DURING a step (from `act()` and from handlers)
+
+`run_step` builds `agents_by_id` and distributes the events, then runs `for agent in model.agents:
+agent.handle_events(…); agent.act(…)`.  The `for` iterates the list object bound at loop entry (C12):
+`create_agent` appends to `model.agents`, i.e. to the iterated object while it is still the same object
+(`aliased`) — the new agent gets its turn in this very step, with an empty inbox; `delete_agents`,
+`configure_agents` and `reset` REBIND `model.agents`, the iterated object is frozen from then on: an agent
+deleted during the step still handles the events that were distributed to it at the start of the step.
+Events sent during the step are appended to `model.events`, the delayed events are put back in front of them
+at the end of the step. -/
+
+/-- what user code can do to the model from `act()` / from a handler -/
+inductive Eff where
+  | create (ty : Nat)
+  | delete (ids : List Nat)
+  | configure (spec : List (Nat × Nat))
+  | reset
+  | send (rid delay : Nat)
+  | broadcast (ty delay : Nat)
+deriving Repr
+
+def Eff.toOp : Eff → Op
+  | .create ty => .create ty
+  | .delete ids => .delete ids
+  | .configure spec => .configure spec
+  | .reset => .reset
+  | .send r d => .send r d
+  | .broadcast t d => .broadcast t d
+
+/-- user code: what the handler of an event does, what `act()` of agent `id` does in step `now` -/
+structure Prog where
+  onEvent : Msg → List Eff
+  onAct : Nat → Nat → List Eff
+
+structure Loop where
+  st : State             -- the model (`st.agents` = `model.agents`, inboxes shown empty: they are in `todo`)
+  todo : List Agent      -- rest of the iterated list object: agent objects with their inboxes
+  aliased : Bool         -- the iterated object is still `model.agents`
+  done : List Eff        -- ghost: effects executed so far, in execution order
+
+def effStep (l : Loop) (e : Eff) : Loop :=
+  match e with
+  | .create ty =>
+    { st := step l.st e.toOp
+      todo := if l.aliased then l.todo ++ [{ id := l.st.next, ty := ty, inbox := [] }] else l.todo
+      aliased := l.aliased, done := l.done ++ [e] }
+  | .delete _ => { st := step l.st e.toOp, todo := l.todo, aliased := false, done := l.done ++ [e] }
+  | .configure _ => { st := step l.st e.toOp, todo := l.todo, aliased := false, done := l.done ++ [e] }
+  | .reset => { st := step l.st e.toOp, todo := l.todo, aliased := false, done := l.done ++ [e] }
+  | .send _ _ => { st := step l.st e.toOp, todo := l.todo, aliased := l.aliased, done := l.done ++ [e] }
+  | .broadcast _ _ => { st := step l.st e.toOp, todo := l.todo, aliased := l.aliased, done := l.done ++ [e] }
+
+def addLog (s : State) (L : List Handled) : State := { s with log := s.log ++ L }
+
+/-- one iteration of `while len(self.events) > 0` in `handle_events`: the handler runs (log), then does its effects -/
+def handleOne (P : Prog) (now : Nat) (live : List Nat) (aid : Nat) (l : Loop) (e : Ev) : Loop :=
+  (P.onEvent e.msg).foldl effStep
+    { l with st := addLog l.st [{ step := now, agent := aid, msg := e.msg, live := live }] }
+
+/-- `agent.handle_events(…); agent.act(…)` -/
+def agentTurn (P : Prog) (now : Nat) (live : List Nat) (l : Loop) (a : Agent) : Loop :=
+  (P.onAct now a.id).foldl effStep (a.inbox.reverse.foldl (handleOne P now live a.id) l)
+
+/-- the `for agent in model.agents` loop; `fuel` bounds it (agents that create agents that create … never
+leave the loop in Python); second component: ran out of fuel -/
+def midLoop (P : Prog) (now : Nat) (live : List Nat) : Nat → Loop → Loop × Bool
+  | 0, l => (l, !l.todo.isEmpty)
+  | f + 1, l =>
+    match l.todo with
+    | [] => (l, false)
+    | a :: rest => midLoop P now live f (agentTurn P now live { l with todo := rest } a)
+
+structure MidOut where
+  st : State
+  stuck : Bool
+  done : List Eff
+
+/-- the distribution phase of `run_step` (as in `stepFn`) -/
+def distOf (s : State) : Dist :=
+  s.events.reverse.foldl (distOne (s.now + 1)) { agents := s.agents, delayed := [], dropped := [] }
+
+/-- the model when the agent loop is entered: all events popped, inboxes (shown in `todo`) filled -/
+def afterDist (s : State) (d : Dist) : State :=
+  { s with now := s.now + 1, agents := d.agents.map clearInbox, dropped := s.dropped ++ d.dropped, events := [] }
+
+/-- `run_step` with user code `P` -/
+def midStep (P : Prog) (fuel : Nat) (s : State) : MidOut :=
+  let d := distOf s
+  let r := midLoop P (s.now + 1) (s.agents.map (·.id)) fuel
+    { st := afterDist s d, todo := d.agents, aliased := true, done := [] }
+  { st := { r.1.st with events := d.delayed.reverse ++ r.1.st.events }, stuck := r.2, done := r.1.done }
+
+/-- histories whose steps carry user code -/
+inductive MOp where
+  | op (o : Op)
+  | stepWith (P : Prog) (fuel : Nat)
+
+structure MState where
+  st : State
+  stuck : Bool
+
+def mstep (m : MState) : MOp → MState
+  | .op o => { m with st := step m.st o }
+  | .stepWith P fuel => let r := midStep P fuel m.st; { st := r.st, stuck := m.stuck || r.stuck }
+
+def mrun (m : MState) (ops : List MOp) : MState := ops.foldl mstep m
+
+/-- the same history with every mid-step effect moved behind its step, as an operation -/
+def linearise : State → List MOp → List Op
+  | _, [] => []
+  | s, .op o :: rest => o :: linearise (step s o) rest
+  | s, .stepWith P fuel :: rest =>
+    (.step :: (midStep P fuel s).done.map Eff.toOp) ++ linearise (midStep P fuel s).st rest
+
+/-! ## Wave 2b — handler tables, states without a table, names without handler, handlers that raise
+
+`Agent.handle_events`:
+```
+try:
+    handlers = self.eventHandlers[self.state]          # KeyError: state without table -> nothing is popped
+    while len(self.events) > 0:
+        event = self.events.pop()
+        try: handlers[event.name](event)                # KeyError (no such name, or raised inside the handler): swallowed
+        except KeyError: pass
+except KeyError: pass
+```
+Any other exception raised by a handler leaves `handle_events` and `run_step`: the event was popped, the rest of
+the inbox, the later agents' inboxes and `scheduler.delayed_events` stay; the next `run_step` that completes puts
+`delayed_events` (old ones first, in `pop()` order) back: `model.events[:0] = reversed(delayed_events)`.
+The machine is the base `State` plus side data; the distribution phase is the base one. -/
+
+/-- `agent.state` and `agent.eventHandlers` as rows (state, names that have a handler) -/
+structure Meta where
+  state : Nat
+  tbl : List (Nat × List Nat)
+deriving DecidableEq, Repr
+
+/-- a base agent: state 0 ("active"), handler for name 0 ("ev") in state 0 -/
+def stdMeta : Meta := { state := 0, tbl := [(0, [0])] }
+
+def Meta.handlers (m : Meta) : Option (List Nat) := m.tbl.lookup m.state
+
+structure XState where
+  s : State                    -- the base machine's state; inboxes may be non-empty between steps here
+  ameta : List (Nat × Meta)    -- by agent id (ids are never reused), latest entry first; no entry = `stdMeta`
+  stash : List Ev              -- `scheduler.delayed_events` left behind by steps that raised
+  ignored : List Handled       -- ghost: popped by the addressed agent, no handler of that name
+  lost : List Ev               -- ghost: still in the inbox of an agent when it was deleted / the population cleared
+  aborted : List Nat           -- ghost: steps that ended with an exception
+deriving Repr
+
+def XState.init : XState := { s := State.init, ameta := [], stash := [], ignored := [], lost := [], aborted := [] }
+
+def XState.metaOf (x : XState) (i : Nat) : Meta := (x.ameta.lookup i).getD stdMeta
+
+inductive XOp where
+  | base (o : Op)                                   -- the base operations (agents created with `stdMeta`)
+  | createT (ty : Nat) (m : Meta)                   -- an agent whose `initialize()` registers `m.tbl`, state `m.state`
+  | setState (id st : Nat)                          -- `agent.state = st`
+  | sendX (rid delay name : Nat) (raises : Bool)    -- event with a name / whose handler raises
+deriving Repr
+
+def sendX (s : State) (rid delay name : Nat) (raises : Bool) : State :=
+  let m : Msg := { seq := s.nextSeq, rid := rid, sentAt := s.now, delay := delay, name := name, raises := raises }
+  { s with events := s.events ++ [{ msg := m, remaining := delay }]
+           nextSeq := s.nextSeq + 1
+           sent := s.sent ++ [m] }
+
+/-- result of draining one inbox -/
+structure Drain where
+  log : List Handled      -- handler ran
+  ign : List Handled      -- popped, no handler of that name
+  rest : List Ev          -- not popped (in `pop()` order)
+  raised : Bool
+
+/-- the `while` loop of `handle_events` over the inbox in `pop()` order, `names` = keys of `handlers` -/
+def drain (names : List Nat) (mk : Ev → Handled) : List Ev → Drain
+  | [] => { log := [], ign := [], rest := [], raised := false }
+  | e :: rest =>
+    if names.contains e.msg.name then
+      if e.msg.raises then { log := [mk e], ign := [], rest := rest, raised := true }
+      else let r := drain names mk rest; { r with log := mk e :: r.log }
+    else let r := drain names mk rest; { r with ign := mk e :: r.ign }
+
+structure Phase where
+  agents : List Agent
+  log : List Handled
+  ign : List Handled
+  raised : Bool
+
+def mkHandled (now : Nat) (live : List Nat) (aid : Nat) (e : Ev) : Handled :=
+  { step := now, agent := aid, msg := e.msg, live := live }
+
+/-- the agent loop of `run_step` (atomic: effects of user code are operations that follow the step) -/
+def phase (now : Nat) (live : List Nat) (metaOf : Nat → Meta) : List Agent → Phase
+  | [] => { agents := [], log := [], ign := [], raised := false }
+  | a :: rest =>
+    match (metaOf a.id).handlers with
+    | none => let r := phase now live metaOf rest; { r with agents := a :: r.agents }
+    | some names =>
+      let d := drain names (mkHandled now live a.id) a.inbox.reverse
+      if d.raised then
+        { agents := { a with inbox := d.rest.reverse } :: rest, log := d.log, ign := d.ign, raised := true }
+      else
+        let r := phase now live metaOf rest
+        { agents := { a with inbox := [] } :: r.agents, log := d.log ++ r.log, ign := d.ign ++ r.ign, raised := r.raised }
+
+/-- `run_step` after the distribution phase `d` -/
+def xafter (x : XState) (d : Dist) : XState :=
+  let now := x.s.now + 1
+  let live := x.s.agents.map (·.id)
+  let p := phase now live x.metaOf d.agents
+  let held := x.stash ++ d.delayed
+  { x with
+    s := { x.s with now := now, agents := p.agents, log := x.s.log ++ p.log
+                    dropped := x.s.dropped ++ d.dropped
+                    events := if p.raised then [] else held.reverse }
+    stash := if p.raised then held else []
+    ignored := x.ignored ++ p.ign
+    aborted := if p.raised then x.aborted ++ [now] else x.aborted }
+
+def xstepFn (x : XState) : XState := xafter x (distOf x.s)
+
+def inboxesOf (as : List Agent) : List Ev := as.flatMap (·.inbox)
+
+def xstep (x : XState) : XOp → XState
+  | .base .step => xstepFn x
+  | .base (.delete ids) =>
+    { x with s := delete x.s ids, lost := x.lost ++ inboxesOf (x.s.agents.filter (fun a => ids.contains a.id)) }
+  | .base (.configure spec) => { x with s := createSpec (clear x.s) spec, lost := x.lost ++ inboxesOf x.s.agents }
+  | .base .reset => { x with s := clear x.s, lost := x.lost ++ inboxesOf x.s.agents }
+  | .base o => { x with s := step x.s o }
+  | .createT ty m => { x with s := create x.s ty, ameta := (x.s.next, m) :: x.ameta }
+  | .setState i st => { x with ameta := (i, { x.metaOf i with state := st }) :: x.ameta }
+  | .sendX rid delay name raises => { x with s := sendX x.s rid delay name raises }
+
+def xrun (x : XState) (ops : List XOp) : XState := ops.foldl xstep x
 
 /-! ### delay in time units → delay in steps
 
